@@ -184,6 +184,22 @@ Example C04_ex_history :
       [Some [(L "url", false); (L "on_progress", false)]; Some [(L "file_id", false); (L "dest_path", true)]];
       [Some [(L "url", false); (L "onProgress", false)]; Some [(L "fileId", false); (L "destPath", true)]] ].
 Proof. vm_compute. split; reflexivity. Qed.
+(* a channel parameter changes its owner between two unforced runs (and moves back): each run delivers the keys of its own state *)
+Example C04_ex_history_move :
+  let ch := APath [] NChannel (Some [GType]) in
+  let pj (pa pb : list param) : project :=
+    [ [ {| f_cmd := {| c_name := L "start_job"; c_macro_case := None; c_params := mkp "job_id" (plain_t NOther) :: pa |};
+           f_is_command := true |};
+        {| f_cmd := {| c_name := L "watch_job"; c_macro_case := None; c_params := mkp "job_id" (plain_t NOther) :: pb |};
+           f_is_command := true |} ] ] in
+  let x := {| r_cfg := cfg_default; r_mode := Zod; r_project := pj [mkp "on_progress" ch] []; r_force := false |} in
+  let y := {| r_cfg := cfg_default; r_mode := Zod; r_project := pj [] [mkp "on_progress" ch]; r_force := false |} in
+  project_dom (r_project x) = true /\ project_dom (r_project y) = true /\
+  map (map (fun cr => match snd cr with Ok g => option_map kb_of (invoke_keys g) | Panic => None end)) (run_history [x; y; x])
+  = [ [Some [(L "jobId", false); (L "onProgress", false)]; Some [(L "jobId", false)]];
+      [Some [(L "jobId", false)]; Some [(L "jobId", false); (L "onProgress", false)]];
+      [Some [(L "jobId", false); (L "onProgress", false)]; Some [(L "jobId", false)]] ].
+Proof. vm_compute. repeat split; reflexivity. Qed.
 Example C04_ex_kinds : ty_dom (APath [] NState (Some [GLife; GType])) = true /\
   spec_kind (APath [] NState (Some [GLife; GType])) = KInjected /\ spec_kind (APath [] NState None) = KValue.
 Proof. vm_compute. auto. Qed.
